@@ -10,11 +10,12 @@ a = json.load(open(main))
 b = json.load(open(extra))
 ca, cb = a["coverage"], b["coverage"]
 ca["evaluations"] += cb["evaluations"]
-ca["distinct_nontrivial"] += cb["distinct_nontrivial"]  # disjoint: different TLS backend
+ca["distinct_nontrivial"] += cb["distinct_nontrivial"]  # disjoint: different build of the library
 ca[f"flavour_{tag}"] = {k: cb.get(k) for k in ("evaluations", "distinct_nontrivial", "verdicts", "observed_counters", "observed_maxima", "inconclusive") if k in cb}
 ca["samples"] = ca.get("samples", []) + cb.get("samples", [])[:3]
 a["violations"] = a.get("violations", 0) + b.get("violations", 0)
 a["wall_s"] = round(a["wall_s"] + b["wall_s"], 2)
-a.setdefault("assumptions", []).append(f"second pass with the {tag} flavour of the harness (same workload, other TLS backend) merged into this file")
+kind = {"rustls": "rustls TLS backend", "nocompress": "no gzip/deflate support, no TLS"}.get(tag, tag)
+a.setdefault("assumptions", []).append(f"second pass with the {tag} flavour of the harness (same workload, other build of the library: {kind}) merged into this file")
 json.dump(a, open(main, "w"), indent=2)
 os.remove(extra)
